@@ -53,6 +53,13 @@ class C18(Check):
             s = ts + r.choice([0, 86399, r.randrange(86400)])
             cases.append(("dos_try_from %d" % s, {"k": "try_from", "ts": s}))
             ts += 86400
+        # the same conversion for values in other UTC offsets (the calendar fields of the value as given count), dense
+        # around both ends of the representable range
+        for edge in (calendar.timegm((1980, 1, 1, 0, 0, 0)), calendar.timegm((2108, 1, 1, 0, 0, 0))):
+            for off in (0, 1800, 3600, 19800, 43200, 50400, -1800, -3600, -34200, -43200):
+                for d in (-50401, -3601, -3600, -1801, -1, 0, 1, 1799, 1800, 3599, 3600, 43200, 50400):
+                    s = edge + d
+                    cases.append(("dos_try_from %d %d %d" % (s, max(off, 0), max(-off, 0)), {"k": "try_from", "ts": s + off}))
         return cases
 
     def oracle(self, line, meta, out):
